@@ -49,7 +49,7 @@ INSPECT = ("str", "repr", "identity", "length", "payload", "msgmode", "serialize
 
 def floors(tier):
     return {"parse:len!=conforming": 5000, "parse:accepted": 3000, "parse:rejected": 2000,
-            "stream": 2500, "stream:pipe-like": 800, "deep-run": 50, "socket": 400, "parse:prefix": 5000, "stream:qe=2": 500, "stream:has-rejected": 500, "bytes": 500}
+            "stream": 2500, "stream:pipe-like": 800, "deep-run": 50, "socket": 400, "parse:prefix": 5000, "stream:qe=2": 500, "stream:has-rejected": 500, "bytes": 500, "edge-payload": 100000}
 
 
 def plan(tier, seed):
@@ -271,6 +271,18 @@ def run_shard(spec, ctx, acc):
                 st.sampled_from([1, 0]), st.integers(1, 10 ** 6)).map(mk)
             core.hyp_search(acc, strat, check, seed=core.derive(ctx["seed"], PROP, t.label),
                             max_examples=3 if tier == "quick" else 25, known=known, rounds=3, shrink=False)
+        # the deterministic edge payloads of C01 (every value of the first / last byte
+        # at each natural size, special tails): parse and inspect each
+        from vp.props import c01
+
+        for ti in spec["targets"]:
+            for ec in c01.edge_cases(targets[ti], tier, ctx["seed"]):
+                case = {"kind": "frame", "frame": codec.ubx_frame(ec["clsid"][0:1], ec["clsid"][1:2], ec["payload"]),
+                        "mode": ec["mode"], "validate": 1, "bf": ec["bf"]}
+                o = check(case)
+                o.classes = list(o.classes) + ["edge-payload"]
+                if core.handle(acc, o, case, known) and len(acc.violations) >= core.MAX_VIOL_PER_SHARD:
+                    break
         return
     if spec["what"] == "streams":
         def mk(t):
